@@ -22,18 +22,16 @@ logging.disable(logging.CRITICAL)
 LEAN_TARGETS = ["NfcVerif.Props.C04", "drv_c04"]
 
 THEOREMS = [
-    "NfcVerif.C04.dep_exactly_once",
-    "NfcVerif.C04.dep_transaction_at_most_once",
-    "NfcVerif.C04.dep_single_fault_recovered",
-    "NfcVerif.C04.dep_no_recovery_with_did_counterexample",
-    "NfcVerif.C04.dep_ack_retransmission_counterexample",
+    "NfcVerif.C04.dep_frame_bound",
+    "NfcVerif.C04.dep_frame_bound_target_counterexample",
     "NfcVerif.C04.dep_error_kind_initiator",
+    "NfcVerif.C04.dep_error_kind_initiator_any_peer",
     "NfcVerif.C04.dep_error_kind_target",
     "NfcVerif.C04.dep_error_kind_target_counterexample",
-    "NfcVerif.C04.dep_frame_bound_initiator",
-    "NfcVerif.C04.dep_frame_bound_target",
-    "NfcVerif.C04.dep_frame_bound_target_counterexample",
+    "NfcVerif.C04.dep_retransmission_idempotent",
     "NfcVerif.C04.dep_codec_roundtrip",
+    "NfcVerif.C04.dep_no_recovery_with_did_counterexample",
+    "NfcVerif.C04.dep_ack_retransmission_counterexample",
 ]
 
 LR = (64, 128, 192, 254)
@@ -137,7 +135,10 @@ def oracle(ck, c, r):
             and not any(k.startswith("f20") or k.startswith("f40") for k, _ in out)):
         if r.err_i != "ok" or r.got_t != c.pi or r.got_i != c.pt:
             s = slug(r.msg_i)
-            key = {"attention-request": "f26-lost-frame-not-recovered-with-did" if c.did else "isolated-fault-not-recovered-attention",
+            hd = 4 if c.brty == "106A" else 2
+            atn_no_did = any(d == ">" and h[hd:hd + 6] == "d40680" for d, h, f in r.wire)
+            key = {"attention-request": "f26-lost-frame-not-recovered-with-did" if (c.did and atn_no_did)
+                   else "isolated-fault-not-recovered-attention",
                    "ack-retransmission": "f27-retransmitted-ack-rejected"}.get(s, "isolated-fault-not-recovered-" + s)
             out.append((key, "script %s with isolated faults: Initiator %s (%s), delivered %d/%d and %d/%d"
                         % (c.script or "-", r.err_i, r.msg_i, len(r.got_t), len(c.pi), len(r.got_i), len(c.pt))))
@@ -427,6 +428,13 @@ def run(ck):
                    "harness/sims/dep_air.py (in-memory air, rendezvous between the two real nfc.dep objects, virtual clock)",
                    "harness/props/c04.py (generators, oracle)"]
     ck.lean("NfcVerif.Props.C04", THEOREMS)
+    tie_seen = {}
+
+    def tie_fail(key, what, replay):
+        # report few disagreements per tie so that failing inputs of the oracle are never crowded out
+        tie_seen[key] = tie_seen.get(key, 0) + 1
+        if tie_seen[key] <= 4:
+            ck.fail(key, what, replay)
     if ck.thorough:
         ck.leanchecker(["NfcVerif.Props.C04"])
     model = Model("drv_c04")
@@ -442,6 +450,13 @@ def run(ck):
 
     # ---------------------------------------------------------- cases
     cases = []
+    # witnesses of the known defects (regression corpus)
+    cases.append(mk("106A", 3, None, 0, 0, None, None, "", 2, [b"\x01"], [bytes(range(61))], "corpus:f20"))
+    cases.append(mk("212F", 3, None, 3, 3, None, None, "", 2, [b"\x01"], [bytes(251)], "corpus:f20-254"))
+    cases.append(mk("106A", 3, None, 0, 0, 4, 4, "l", 2, [b"\x01\x02"], [b"\x81"], "corpus:f26"))
+    cases.append(mk("106A", None, None, 0, 0, 4, 4, "dc", 2, [b"\x01\x02\x03\x04\x05\x06"], [b"\x81"], "corpus:f27"))
+    cases.append(mk("106A", None, None, 0, 0, 4, 4, "lddx", 2, [b"\x01\x02"], [b"\x81"], "corpus:f40"))
+
     k = 3 if ck.thorough else 2
     convs = short_conversations()
     for ci, conv in enumerate(convs):
@@ -462,13 +477,6 @@ def run(ck):
         cases.append(random_case(rng, long_conv=(i % 5 == 0), did0=variant[1] == "1"))
     for i in range(1500 if ck.thorough else 250):
         cases.append(isolated_case(rng))
-    # witnesses of the known defects (regression corpus)
-    cases.append(mk("106A", 3, None, 0, 0, None, None, "", 2, [b"\x01"], [bytes(range(61))], "corpus:f20"))
-    cases.append(mk("212F", 3, None, 3, 3, None, None, "", 2, [b"\x01"], [bytes(251)], "corpus:f20-254"))
-    cases.append(mk("106A", 3, None, 0, 0, 4, 4, "l", 2, [b"\x01\x02"], [b"\x81"], "corpus:f26"))
-    cases.append(mk("106A", None, None, 0, 0, 4, 4, "dc", 2, [b"\x01\x02\x03\x04\x05\x06"], [b"\x81"], "corpus:f27"))
-    cases.append(mk("106A", None, None, 0, 0, 4, 4, "lddx", 2, [b"\x01\x02"], [b"\x81"], "corpus:f40"))
-
     lines, reals = [], []
     dis = 0
     for c in cases:
@@ -481,7 +489,7 @@ def run(ck):
         im, tm, td = act[(c.lri, c.lrt, c.did, c.nad)]
         if str(r.imiu) != im or (r.status_t != "inactive" and (str(r.tmiu), o(r.tdid)) != (tm, td)):
             dis += 1
-            ck.fail("tie:c04-activation", "model miu/did %s, implementation %s" % ((im, tm, td), (r.imiu, r.tmiu, r.tdid)), replay_of(c))
+            tie_fail("tie:c04-activation", "model miu/did %s, implementation %s" % ((im, tm, td), (r.imiu, r.tmiu, r.tdid)), replay_of(c))
         imiu = c.miu_i if c.miu_i is not None else int(im)
         tmiu = c.miu_t if c.miu_t is not None else int(tm)
         lines.append("run %d %s %s %s %d %d %s 100000 %s %d %s %s" % (
@@ -503,7 +511,7 @@ def run(ck):
         real = canon_real(r)
         if rep != real:
             dis += 1
-            ck.fail("tie:c04-model-vs-nfc.dep", "model %r, implementation %r" % (rep, real),
+            tie_fail("tie:c04-model-vs-nfc.dep", "model %r, implementation %r" % (rep, real),
                     {"request": line, "model": rep, "impl": real, "case": replay_of(c)})
     ck.tie("NfcDep model vs two real nfc.dep objects over the faulty air", cases=len(reals), disagreements=dis, exhaustive=False)
 
@@ -523,7 +531,7 @@ def run(ck):
     for line, real, rep in zip(slines, sreal, model.ask_many(slines)):
         if rep != real:
             sdis += 1
-            ck.fail("tie:c04-initiator-vs-scripted-responder", "model %r, implementation %r" % (rep, real),
+            tie_fail("tie:c04-initiator-vs-scripted-responder", "model %r, implementation %r" % (rep, real),
                     {"request": line, "model": rep, "impl": real})
     ck.tie("Initiator model vs real Initiator.exchange against scripted responses", cases=len(slines), disagreements=sdis, exhaustive=False)
 
@@ -534,7 +542,7 @@ def run(ck):
         ck.case(descr, True, "codec:" + descr[0])
         if rep != real:
             cdis += 1
-            ck.fail("tie:c04-codec", "model %r, implementation %r" % (rep, real), {"request": line, "model": rep, "impl": real})
+            tie_fail("tie:c04-codec", "model %r, implementation %r" % (rep, real), {"request": line, "model": rep, "impl": real})
         if orc:
             ck.fail(orc[0], orc[1], {"request": line, "impl": real})
     ck.tie("frame codec model vs encode_frame/decode_frame of both roles", cases=len(cc), disagreements=cdis, exhaustive=False)
